@@ -575,8 +575,8 @@ pub fn run(s: &Session) {
     }
     s.foreach("language-views-all-subsets", fam, true, check_views_encoding);
 
-    s.forall("build-for", s.pick(20_000, 500_000), case, check_build_for);
-    s.forall("hash-direct", s.pick(10_000, 250_000), case, check_hash_direct);
+    s.forall("build-for", s.pick(100_000, 2_000_000), case, check_build_for);
+    s.forall("hash-direct", s.pick(50_000, 1_000_000), case, check_hash_direct);
 
     s.note("discarded_undecodable_witness_sets", serde_json::json!(DISCARD_UNDECODABLE.load(AO::Relaxed)));
     s.note("discarded_noncanonical_redeemers", serde_json::json!(DISCARD_NONCANONICAL_REDEEMERS.load(AO::Relaxed)));
